@@ -668,9 +668,27 @@ def run_once(cfg, seed, conf=None):
     logs = []
     conf = make_conf(cfg) if conf is None else conf
     conf_before = conf_fingerprint(conf)
+    reseed = bool(cfg.get("reseed"))
+    if reseed:
+        # a user script that builds the model with seed=None / another seed and then calls model.set_random_seed(s);
+        # the harness pins the global generators first so that an unseeded construction is the same in every run
+        import random as _random
+
+        import numpy as _np
+        import torch as _th
+
+        _random.seed(424242)
+        _np.random.seed(424242)
+        _th.manual_seed(424242)
     with Monitor() as mon:
-        m, venv = build(cfg, seed, logs, conf)
-        setup_calls = list(mon.seed_calls)
+        m, venv = build(cfg, cfg.get("build_seed") if reseed else seed, logs, conf)
+        if reseed:
+            n_before = len(mon.seed_calls)
+            m.set_random_seed(seed)
+            setup_calls = list(mon.seed_calls[n_before:])
+            mon.seed_calls[:] = setup_calls
+        else:
+            setup_calls = list(mon.seed_calls)
         import torch as th
 
         init_seed = th.initial_seed()
@@ -705,6 +723,10 @@ CONFIGS = [
     dict(algo="ddpg", env="continuous", n_envs=1, total=28, noise="ou", initial_noise=True),
     dict(algo="sac", env="continuous", n_envs=1, total=28, noise="ou", initial_noise=True, learning_starts=8),
     dict(algo="td3", env="continuous", n_envs=3, total=36, noise="normal"),
+    # re-seeding a built model: constructed with seed=None / another seed, then model.set_random_seed(s)
+    dict(algo="sac", env="continuous", n_envs=1, total=30, learning_starts=22, reseed=True, build_seed=None),
+    dict(algo="dqn", env="discrete", n_envs=2, total=40, reseed=True, build_seed=1),
+    dict(algo="ppo", env="discrete", n_envs=2, total=32, reseed=True, build_seed=None),
 ]
 
 
@@ -788,7 +810,10 @@ def main():
         n = cfg["n_envs"]
         autos = [f"AutoReset {coq_nat(i)}" for i, seeds in enumerate(a["reset_seeds"]) for _ in range(min(max(len(seeds) - 2, 0), 40))]
         later = "[" + "; ".join(autos + ["Reset"]) + "]"
-        exprs.append(f"let x := run (init {coq_nat(n)}) (setup (Some {coq_Z(s1)}) ++ Reset :: {later}) in "
+        pre = ""
+        if cfg.get("reseed"):
+            pre = f"setup {'None' if cfg.get('build_seed') is None else '(Some ' + coq_Z(cfg['build_seed']) + ')'} ++ "
+        exprs.append(f"let x := run (init {coq_nat(n)}) ({pre}setup (Some {coq_Z(s1)}) ++ Reset :: {later}) in "
                      f"(map gs2z [s_py x; s_np x; s_torch x; s_aspace x], opt2z (s_delivered x))")
         expect.append(("plumbing", ([s1] * 4, [[(-1 if v is None else v) for v in (seeds[:41] + seeds[-1:] if len(seeds) > 42 else seeds)] for seeds in a["reset_seeds"]]), cfg))
         if len(samples) < 2:
@@ -813,7 +838,7 @@ def main():
     chk.notes["noise_correspondence"] = noise_stats
     chk.coverage["evaluations"] = 3 * pairs + len(sites) + noise_stats["cases"]
     chk.coverage["traces_validated_against_impl"] = 3 * pairs
-    chk.coverage["distinct_nontrivial"] = sum(1 for c in cfgs if c["n_envs"] >= 2 or c.get("her") or c.get("use_sde") or c.get("noise") or c.get("vecnormalize"))
+    chk.coverage["distinct_nontrivial"] = sum(1 for c in cfgs if c["n_envs"] >= 2 or c.get("her") or c.get("use_sde") or c.get("noise") or c.get("vecnormalize") or c.get("reseed"))
     chk.coverage["rule"] = ("paired runs (same seed twice, one different seed) of tiny learn() calls; non-trivial = more than one sub-env or an extra randomness consumer (gSDE resampling, action noise, HER, "
                             "VecNormalize); evaluations = runs + scanned call sites")
     chk.notes["explanation"] = ("Category other: seed-plumbing theorems in Coq (6, axiom-free) + ast call-site scan judged by Model.Seeding.scan_ok + paired-run search with an entropy monitor. "
